@@ -17,17 +17,24 @@ def main():
         ctx = Ctx(repo, 'quick', 0)
         results = mod.run(ctx)
         entries = report.known_for(prop)
+        undecided, floors = [], []
         for r in results:
-            if r.instances < r.floor:
-                raise AnalysisError('floor %s: %d < %d' % (
+            if getattr(r, 'undecided', None):
+                undecided.append(r.undecided)
+            elif r.instances < r.floor:
+                floors.append('floor %s: %d < %d' % (
                     r.rule, r.instances, r.floor))
             for f in r.findings:
                 out['findings'].append({
                     'rule': f.rule, 'key': f.key,
                     'known': report.match_known(f, entries) is not None,
                     'message': f.message[:300]})
+        # same precedence as report.emit: a violation stands whatever else
+        # stayed undecided; without one an undecided rule makes the run exit 2
         if any(not f['known'] for f in out['findings']):
             out['code'] = 1
+        elif undecided or floors:
+            raise AnalysisError('; '.join(undecided + floors))
     except AnalysisError as ex:
         out['code'], out['error'] = 2, str(ex)
     except Exception:
